@@ -13,6 +13,16 @@ def gen(rng, tier):
         for sl in (["null"] + lens if tier == "thorough" else ["null", 0, 1, 32, 64, 65, rng.choice(lens)]):
             ikm = contents(rng, il); salt = "null" if sl == "null" else hexs(contents(rng, sl))
             cases.append(Case("hkdfx %s %s" % (hexs(ikm), salt), "extract ikm=%d salt=%s" % (il, sl), True, spec="spec.hkdfx %s %s" % (hexs(ikm), salt)))
+    # contexts / infos / salts that text handling might "normalise" (BOM, line ends, blanks, NULs), and all-zero salts of every length class
+    for pre in [b"\xef\xbb\xbf", b"\xff\xfe", b" ", b"\x00", b"\r\n"]:
+        for suf in [b"", b"\n", b"\x00", b" "]:
+            ctx_ = pre + b"label" + suf; ikm = contents(rng, 32, "rand"); salt = contents(rng, 16, "rand")
+            cases.append(Case("hkdfkiv %s %s %s" % (hexs(ikm), hexs(salt), hexs(ctx_)), "keyiv texty-context", True, spec="spec.hkdfkiv %s %s %s" % (hexs(ikm), hexs(salt), hexs(ctx_))))
+            cases.append(Case("hkdfe %s %s 44" % (hexs(ikm), hexs(ctx_)), "expand texty-info", True, spec="spec.hkdfe %s %s 44" % (hexs(ikm), hexs(ctx_))))
+    for sl in [1, 31, 32, 33, 64, 65, 100, 200]:
+        ikm = contents(rng, 20, "rand")
+        cases.append(Case("hkdfx %s %s" % (hexs(ikm), hexs(bytes(sl))), "extract zero-salt len=%d" % sl, True, spec="spec.hkdfx %s %s" % (hexs(ikm), hexs(bytes(sl)))))
+        cases.append(Case("hkdfkiv %s %s %s" % (hexs(ikm), hexs(bytes(sl)), hexs(b"c")), "keyiv zero-salt len=%d" % sl, True, spec="spec.hkdfkiv %s %s %s" % (hexs(ikm), hexs(bytes(sl)), hexs(b"c"))))
     # coinciding operands: ikm == salt (same bytes), prk == info
     for n in [1, 32, 64, 65]:
         X = contents(rng, n, "rand")
